@@ -71,7 +71,15 @@ def searchItem (z : ZTable) (cm : SearchCfgM) (cs : Spec.SearchCfg) (noSpec : Bo
         let g := materialGame z
         let st0 : SState := { r.st with polls := 0, cancelAt := if cancel = 0 then none else some cancel, nodes := 0 }
         let (res, st1) := alphaBetaSearch g cm.ex cm.le r.w d a b st0
-        let r' := { r with st := st1 }
+        -- side effect on the caller's board: a root without legal moves is adjudicated by the search
+        -- (`AdjudicateNoLegalMoves`), unless the search never got there
+        let rootBd := r.w.board 0
+        let noLegal := ((r.w.cur 0).pos.legalMoves rootBd.turn).isEmpty
+        let reaches := match cm.le with | .static => d ≥ 1 | .quiescence _ _ => d ≥ 1 || rootBd.result.outcome != .draw
+        let blocked := rootBd.result.reason == .checkmate || rootBd.result.reason == .stalemate
+        let w1 := if res.isSome && noLegal && reaches && !blocked && rootBd.result.outcome != .draw
+          then (r.w.adjudicateNoLegalMoves 0).1 else r.w
+        let r' := { r with st := st1, w := w1 }
         match res with
         | none => (r', "halted restored=true", "halted restored=true")
         | some sr =>
